@@ -35,7 +35,7 @@ func vDerive(parent *vDerived, id string) *vDerived {
 	if vNonNeg {
 		vrt.Assume(x >= 0) // text encoders: keeps the sign of every number out of the path count
 	}
-	switch vrt.Choice(id+".op", 10) {
+	switch vrt.Choice(id+".op", 11) {
 	case 0:
 		d.log = parent.log.With(d.add("k"+id, x))
 	case 1:
@@ -57,6 +57,10 @@ func vDerive(parent *vDerived, id string) *vDerived {
 		f := Namespace("ns" + id)
 		d.ns = append(d.ns, "ns"+id)
 		d.log = parent.log.With(f, d.add("k"+id, x))
+	case 10:
+		// an object whose marshaler opens a namespace of its own: it must not disturb the namespaces around it
+		d.ctx = append(d.ctx, vPathField{ns: append(append([]string(nil), d.ns...), "o"+id, "in"), key: "v", val: x})
+		d.log = parent.log.With(Object("o"+id, vNsObj{x}))
 	case 9:
 		// the context ends with a freshly opened namespace
 		d.ns = append(d.ns, "ns"+id)
@@ -82,6 +86,15 @@ func vJoin(names []string) string {
 	return s
 }
 
+// vNsObj opens a namespace inside its own object.
+type vNsObj struct{ v int64 }
+
+func (o vNsObj) MarshalLogObject(enc zapcore.ObjectEncoder) error {
+	enc.OpenNamespace("in")
+	enc.AddInt64("v", o.v)
+	return nil
+}
+
 // vFlatten evaluates recorded fields into (namespace path, key, value) triples.
 func vFlatten(fields []Field) []vPathField {
 	var out []vPathField
@@ -95,14 +108,27 @@ func vFlatten(fields []Field) []vPathField {
 		default:
 			r := &vRecEnc{}
 			f.AddTo(r)
-			for _, c := range r.calls {
-				if v, ok := c.val.(int64); ok {
-					out = append(out, vPathField{ns: append([]string(nil), ns...), key: c.key, val: v})
-				}
-			}
+			vFlattenCalls(r.calls, ns, &out)
 		}
 	}
 	return out
+}
+
+// vFlattenCalls walks recorded encoder calls; a namespace opened inside an object ends with that object.
+func vFlattenCalls(calls []vCall, ns []string, out *[]vPathField) {
+	cur := append([]string(nil), ns...)
+	for _, c := range calls {
+		switch {
+		case c.method == "OpenNamespace":
+			cur = append(cur, c.key)
+		case c.method == "AddObject":
+			vFlattenCalls(c.fields, append(append([]string(nil), cur...), c.key), out)
+		default:
+			if v, ok := c.val.(int64); ok {
+				*out = append(*out, vPathField{ns: append([]string(nil), cur...), key: c.key, val: v})
+			}
+		}
+	}
 }
 
 func vSamePath(a, b []vPathField) bool {
@@ -311,7 +337,7 @@ func (s *vLineSink) Write(p []byte) (int, error) {
 }
 func (s *vLineSink) Sync() error { return nil }
 
-//verif: prop=C07 bounds="derivation programs of 2 steps (each: parent chosen among earlier loggers; op in {With 1 field, With 3 fields, WithLazy 1 field, WithLazy 2 fields, Named(empty|name), WithOptions(Fields), Sugar.With.Desugar, Sugar.WithLazy.Desugar, Namespace+field, Namespace alone}), symbolic int64 values, 9 core kinds (recorder, observer, JSON, console, tee, sampler, hooked, increase-level, lazy); every logger logs once, forwards or backwards"
+//verif: prop=C07 bounds="derivation programs of 2 steps (each: parent chosen among earlier loggers; op in {With 1 field, With 3 fields, WithLazy 1 field, WithLazy 2 fields, Named(empty|name), WithOptions(Fields), Sugar.With.Desugar, Sugar.WithLazy.Desugar, Namespace+field, Namespace alone, an object whose marshaler opens its own namespace}), symbolic int64 values, 9 core kinds (recorder, observer, JSON, console, tee, sampler, hooked, increase-level, lazy); every logger logs once, forwards or backwards"
 func VC07Program2() { vContextProgram(2) }
 
 //verif: prop=C07 tier=thorough bounds="derivation programs of 3 steps, 9 core kinds"
